@@ -117,13 +117,47 @@ func checkTime(c *core.Ctx, t time.Time, positions bool) {
 	default:
 		c.Outcome("all-positions-exact")
 	}
+	// the same timestamp behind one pointer held by two fields, and behind two pointers
+	tt, t2 := t, t
+	for _, ph := range []*TimePtrPos{{A: &tt, B: &tt, N: 6}, {A: &tt, B: &t2, N: 6}, {A: nil, B: &tt, N: 6}} {
+		ptm, pnm, _ := Maps(ph)
+		enc = Encode(ph, pnm)
+		if !enc.OK() {
+			report("pointer", "encode", "error", fmt.Sprint(enc.Err, enc.Panic), "")
+			return
+		}
+		dec = Decode(enc.Bytes, ptm)
+		if !dec.OK() {
+			report("pointer", "decode", "error", fmt.Sprint(dec.Err, dec.Panic), hexs(enc.Bytes))
+			return
+		}
+		dp, ok := dec.Val.(*TimePtrPos)
+		okP := func(orig, g *time.Time) bool {
+			if orig == nil || t.IsZero() {
+				return g == nil || g.IsZero()
+			}
+			return g != nil && sameInstant(t, *g)
+		}
+		if !ok || !okP(ph.A, dp.A) || !okP(ph.B, dp.B) || dp.N != 6 {
+			report("pointer", "decode", "mismatch", "timestamp behind a pointer field differs", fmt.Sprintf("%+v | %s", dec.Val, hexs(enc.Bytes)))
+			return
+		}
+	}
+	c.Outcome("pointer-fields-exact")
+}
+
+// TimePtrPos holds timestamps behind pointers.
+type TimePtrPos struct {
+	A *time.Time
+	B *time.Time
+	N int32
 }
 
 func init() {
 	core.Register(&core.Prop{
 		ID: "C10", Level: "model_checking",
-		Rule:        "Exhaustive enumeration of instants, each through the real encoder/decoder at top level, in a struct field and in []time.Time: every millisecond in +-2 s windows around the epoch, +-2^31 s, +-2^32 s, the int64-nanosecond limits (1677-09-21, 2262-04-11), 0001-01-01 and 9999-12-31T23:59:59.999; seven instants in every year 1..9999; sub-millisecond offsets {1, 499999, 500000, 999999 ns} at each boundary; the zero time; (thorough) every whole minute of 1969-12-31..1970-01-02 and every second of the two 2^31 windows +-1h. Oracle: whole-millisecond instants decode Equal, finer ones less than 1 ms away, zero time comes back zero. Distinct by construction.",
-		Assumptions: []string{"*time.Time fields are outside the supported kinds and not exercised"},
+		Rule:        "Exhaustive enumeration of instants, each through the real encoder/decoder at top level, in a struct field and in []time.Time: every millisecond in +-2 s windows around the epoch, +-2^31 s, +-2^32 s, the int64-nanosecond limits (1677-09-21, 2262-04-11), 0001-01-01 and 9999-12-31T23:59:59.999; seven instants in every year 1..9999; sub-millisecond offsets {1, 499999, 500000, 999999 ns} at each boundary; the zero time; (thorough) every millisecond in +-120 s windows around the same boundaries, every whole minute of 1969-12-31..1970-01-02 and every second of the two 2^31 windows +-1h. Oracle: whole-millisecond instants decode Equal, finer ones less than 1 ms away, zero time comes back zero. Distinct by construction.",
+		Assumptions: []string{"*time.Time fields are exercised in one holder (same pointer twice, two pointers, nil + pointer); a nil *time.Time and a pointer to the zero time are identified"},
 		Units: func(tier string) []core.Unit {
 			var us []core.Unit
 			bounds := []time.Time{time.Unix(0, 0), time.Unix(1<<31, 0), time.Unix(-(1 << 31), 0), time.Unix(1<<32, 0), time.Unix(-(1 << 32), 0),
@@ -131,6 +165,22 @@ func init() {
 				time.Date(1, 1, 1, 0, 0, 2, 0, time.UTC), time.Date(9999, 12, 31, 23, 59, 57, 999000000, time.UTC)}
 			for bi, b := range bounds {
 				b := b.UTC()
+				if tier == "thorough" {
+					// every millisecond of the two minutes before and after each boundary, in 8 shards
+					for part := 0; part < 8; part++ {
+						part := part
+						us = append(us, core.Unit{Name: fmt.Sprintf("wide-window-%d:%d", bi, part), Cost: 30, Run: func(c *core.Ctx) {
+							base := b.Truncate(time.Second)
+							for ms := -120000 + part; ms <= 120000; ms += 8 {
+								t := base.Add(time.Duration(ms) * time.Millisecond)
+								if t.Year() < 1 || t.Year() > 9999 {
+									continue
+								}
+								checkTime(c, t, ms%1000 == 0)
+							}
+						}})
+					}
+				}
 				us = append(us, core.Unit{Name: fmt.Sprintf("window-%d", bi), Cost: 20, Run: func(c *core.Ctx) {
 					base := b.Truncate(time.Second)
 					for ms := -2000; ms <= 2000; ms++ {
